@@ -6,7 +6,7 @@ from ..model import AnalysisError, norm, short, call_name, const_val, flatten_ad
 from ..report import rule
 from ..shapes import single_return, args_are_params, inplace_switch, attr_writes, bind_call, straight_env, subst
 from ..consteval import get_folder, Unfoldable, EnumRef
-from ..finite import eval_guard, flag_valuation, order_valuation, run_block, Undecided, cmp_regions
+from ..finite import eval_guard, flag_valuation, order_valuation, run_block, Undecided, cmp_regions, merge_valuations
 
 
 def _calls(f, name=None, on=None):
@@ -493,46 +493,68 @@ def D6(m, R):
     selfn = f.self_name
     txt = '%s.%s' % (selfn, TEXT)
     tbl = '%s.%s' % (selfn, TABLE)
-    grow = shrink = None
     from ..shapes import local_aliases, canon
     aal = local_aliases(f)      # cached lengths: sound here because the text is assigned last (checked below)
 
     def cn(x):
         return canon(x, aal)
-    for n in f.walk():
-        if isinstance(n, ast.If) and isinstance(n.test, ast.Compare) and len(n.test.ops) == 1 and \
-                {cn(n.test.left), cn(n.test.comparators[0])} == {'len(%s)' % s, 'len(%s)' % txt}:
-            swapped = cn(n.test.left) != 'len(%s)' % s
-            regs = cmp_regions(n.test.ops[0], swapped)
-            # equal lengths may go either way: moving the end point onto itself / clipping to the full length change nothing
-            if regs in ({'>'}, {'>', '='}):
-                grow = n
-            elif regs in ({'<'}, {'<', '='}):
-                shrink = n
+    # the body is run for the three orderings of the new length against the old one (x end point present or not): a longer string moves
+    # the point at the old length to the new length, a shorter one clips, nothing else touches the table -- whatever the if / elif shape
+    NEWL, OLDL = 'len(%s)' % s, 'len(%s)' % txt
     problems = []
-    if grow is None:
-        problems.append('no branch for a longer string')
-    else:
-        mv = [x for x in ast.walk(grow) if isinstance(x, ast.Assign) and cn(x.targets[0]) == '%s[len(%s)]' % (tbl, s) and
-              cn(x.value) == '%s.pop(len(%s))' % (tbl, txt)]
-        if not mv or not any(mv[0] in ast.walk(b_) for b_ in grow.body):
-            problems.append('growing does not move the point at the old length to the new length')
-    if shrink is None:
-        problems.append('no branch for a shorter string')
-    else:
-        cl = [x for x in ast.walk(shrink) if isinstance(x, ast.Call) and call_name(x) == 'clip']
-        okc = False
-        for c in cl:
-            got, _ = _bound_texts(c, fn('clip'))
-            if got.get('end') in aal:
-                got['end'] = cn(aal[got['end']])
-            okc = got.get('end') == 'len(%s)' % s and got.get('inplace') == 'True' and got.get('start') in (None, '0', 'None')
-        if not okc:
-            problems.append('shrinking does not clip(end=len(s), inplace=True)')
+    move_txt = ('%s[%s]' % (tbl, NEWL), '%s.pop(%s)' % (tbl, OLDL))
+    try:
+        for region, rank in (('>', 2), ('=', 1), ('<', 0)):
+            for present in (True, False):
+                base = merge_valuations(order_valuation({NEWL: rank, OLDL: 1}),
+                                        flag_valuation({}, {'%s in %s' % (OLDL, tbl): present, '%s not in %s' % (OLDL, tbl): not present}))
+
+                def val(atom, base=base):
+                    return base(subst(atom, aal))
+                did = []
+
+                def visit(st, did=did):
+                    if isinstance(st, ast.Assign) and cn(st.targets[0]) == move_txt[0] and cn(st.value) == move_txt[1]:
+                        did.append('move')
+                    elif isinstance(st, ast.Expr) and isinstance(st.value, ast.Call) and call_name(st.value) == 'clip':
+                        got, _ = _bound_texts(st.value, fn('clip'))
+                        e_ = got.get('end')
+                        if e_ in aal:
+                            e_ = cn(aal[e_])
+                        if e_ == NEWL and got.get('inplace') == 'True' and got.get('start') in (None, '0', 'None'):
+                            did.append('clip')
+                        else:
+                            did.append('clip?' + short(st.value))
+                    elif isinstance(st, ast.Assign) and isinstance(st.targets[0], ast.Name):
+                        pass
+                    elif isinstance(st, ast.Assign) and cn(st.targets[0]) == txt:
+                        did.append('text')
+                    elif isinstance(st, ast.Expr) and isinstance(st.value, ast.Constant):
+                        pass
+                    else:
+                        did.append('other:' + short(st))
+                run_block(f.body, val, visit)
+                acts = [d_ for d_ in did if d_ != 'text']
+                if region == '>' and present and acts != ['move']:
+                    problems.append('for a longer string with a point at the old end the body does %s; it must move that point to the new end' % acts)
+                if region == '>' and not present and acts not in ([], ):
+                    problems.append('for a longer string without a point at the old end the body does %s' % acts)
+                if region == '<' and acts != ['clip']:
+                    problems.append('for a shorter string the body does %s; it must clip(end=len(s), inplace=True)' % acts)
+                if region == '=' and any(a_ not in ('move', 'clip') for a_ in acts):
+                    problems.append('for a string of the same length the body does %s' % acts)
+                if did and did[-1] != 'text' and 'text' in did:
+                    problems.append('the text is assigned before the settings are adjusted')
+    except Undecided as ex:
+        R.undecided(f, f.node, 'assign_str not interpreted: %s' % ex, construct=cons)
+        problems = None
+    if problems is not None:
+        problems = problems[:1]
     assigns = [x for x in f.body if isinstance(x, ast.Assign) and norm(x.targets[0]) == txt]
-    if not assigns or norm(assigns[-1].value) != s or f.body.index(assigns[-1]) != len(f.body) - 1:
-        problems.append('the text is not assigned last (after the settings were adjusted against the old length)')
-    R.check(not problems, f, f.node, 'assign_str: grow moves the end point, shrink clips, then the text is assigned', '; '.join(problems), construct=cons)
+    if problems is not None:
+        if not assigns or norm(assigns[-1].value) != s or f.body.index(assigns[-1]) != len(f.body) - 1:
+            problems.append('the text is not assigned last (after the settings were adjusted against the old length)')
+        R.check(not problems, f, f.node, 'assign_str: grow moves the end point, shrink clips, then the text is assigned', '; '.join(problems), construct=cons)
     # simplify
     f = fn('simplify')
     cons = 'simplify'
